@@ -248,7 +248,15 @@ Inductive case :=
        errors = failed calls; s* = the same with one Del call per key on a twin store. *)
 | CL (written : list (option nat)) (got ref : list (option nat)) (loaded : list nat) (tol : nat)
 | CD (nkeys count : nat) (remaining : list nat) (kept : bool) (errors scount : nat) (sremaining : list nat)
-     (skept : bool) (serrors : nat).
+     (skept : bool) (serrors : nat)
+(* CR: a Get parked in the middle of its lookup (inside the caller-supplied hash function) while Remove(removed) is
+       attempted on a ring of nodes 0,1,2; per probe key (owner before, answer of the overlapping Get, owner after);
+       None = absent / panicked; hung = some call did not return or Remove panicked. *)
+| CR (removed : nat) (rows : list (option nat * option nat * option nat)) (hung : bool)
+(* CT: two cache clusters built from the SAME configuration (two service instances): gota / gotb = the node each
+       instance places every key on, ref as in CX (twin over real servers: ref = gota), missing = keys written through
+       instance A that instance B does not read back. Placement depends on the configuration only. *)
+| CT (weights : list nat) (gota gotb ref : list (option nat)) (missing : nat).
 
 Definition dispatch_ok (weights : list nat) (got ref : list (option nat)) : bool :=
   list_eqb optnat_eqb got ref &&
@@ -275,6 +283,21 @@ Definition multidel_ok (nkeys count : nat) (remaining : list nat) (kept : bool) 
   (* ... exactly like single-key deletes *)
   Nat.eqb scount count && match sremaining with [] => true | _ => false end && skept && Nat.eqb serrors 0.
 
+(* a Get overlapping a Remove answers as if it ran entirely before or entirely after it: the owner before or the
+   owner after -- in particular a present node (two other nodes are present all the time), never "absent" *)
+Definition race_row_ok (removed : nat) (r : option nat * option nat * option nat) : bool :=
+  match r with
+  | (Some p, ans, Some q) =>
+      Nat.ltb p 3 && Nat.ltb q 3 && negb (Nat.eqb q removed) && (Nat.eqb p removed || Nat.eqb q p) &&
+      (optnat_eqb ans (Some p) || optnat_eqb ans (Some q))
+  | _ => false
+  end.
+Definition race_ok (removed : nat) (rows : list (option nat * option nat * option nat)) (hung : bool) : bool :=
+  negb hung && forallb (race_row_ok removed) rows.
+
+Definition twin_ok (weights : list nat) (gota gotb ref : list (option nat)) (missing : nat) : bool :=
+  dispatch_ok weights gota ref && list_eqb optnat_eqb gotb gota && Nat.eqb missing 0.
+
 Definition model_ok (c : case) : bool :=
   match c with
   | CH h => ring_model_ok h
@@ -282,6 +305,8 @@ Definition model_ok (c : case) : bool :=
   | CF got ref => list_eqb N.eqb got ref
   | CL w got ref l tol => loaded_ok w got ref l tol
   | CD n c r k e sc sr sk se => multidel_ok n c r k e sc sr sk se
+  | CR n rows hung => race_ok n rows hung
+  | CT w ga gb ref mi => twin_ok w ga gb ref mi
   end.
 
 Definition spec_ok (c : case) : bool :=
@@ -291,4 +316,6 @@ Definition spec_ok (c : case) : bool :=
   | CF got ref => list_eqb N.eqb got ref
   | CL w got ref l tol => loaded_ok w got ref l tol
   | CD n c r k e sc sr sk se => multidel_ok n c r k e sc sr sk se
+  | CR n rows hung => race_ok n rows hung
+  | CT w ga gb ref mi => twin_ok w ga gb ref mi
   end.
